@@ -311,6 +311,16 @@ def s4_custody(F, R, M, roles, rule='S4', only=None):
                       and any(pp[0] == 'idx' for x in subterms(e[3][0]) if x[0] == 'loc' for pp in x[2])]
                 if not tk or min(tk) > pk[0]:
                     late = 'a path returning %s consumes the completion %s' % (err_variant(p.ret), 'before the slot is vacated' if tk else 'and never vacates the slot')
+            # the length the caller sees is this completion's: every Ok path stores a value derived from the pop_used result
+            # into the returned buffer (a recycled buffer otherwise keeps the length of the frame it carried before)
+            stale = None
+            for p in okp:
+                pops_ = [e for e in p.effects if e[0] == 'call' and roles.get(e[2]) == 'pop_used']
+                sets = [e for e in p.effects if e[0] == 'store' and pops_ and derives_from(e[3], lambda x: x[0] == 'call' and x[1] == pops_[0][1])]
+                if pops_ and not sets:
+                    stale = 'a successful path returns the buffer without recording the received length'
+            R.check(stale is None, rule, '%s:length-recorded' % b['id'], where, 'every Ok path records the length derived from the used length',
+                    'receive: %s (e.g. only when it is non-zero): the buffer then reports the length of an earlier frame' % stale)
             R.check(late is None, rule, '%s:slot-vacated-before-pop' % b['id'], where, 'the in-flight slot is taken before pop_used on every consuming path',
                     'receive: %s; if the pop succeeds but receive then fails, the slot still claims the id is in flight and a repeated '
                     'used id releases the descriptor a second time' % late)
